@@ -54,7 +54,7 @@ DictsOver(E) ==
 AnyOf(ts) == [BareAny EXCEPT !.types = Some(FlattenAny(ts))]
 AnysOver(E) == {BareAny} \cup {AnyOf(<<e>>) : e \in E} \cup {AnyOf(<<e1, e2>>) : e1, e2 \in E}
 
-Level1 == ListsOver(Comp, CompSmall) \cup DictsOver(CompSmall) \cup AnysOver(CompSmall)
+Level1 == ListsOver(Comp, CompSmall \cup {BareAny}) \cup DictsOver(CompSmall) \cup AnysOver(CompSmall)
 
 \* representatives of level 1 used as components of level 2
 R_TypedLen == [TypedList(SInt05) EXCEPT !.min_len = Some(VInt(1)), !.max_len = Some(VInt(2))]
